@@ -228,3 +228,57 @@ Fixpoint observe (s : state) (evs : list event) : option (list vis * state) :=
       end
     end
   end.
+
+(* ------------------------------------- how a probe asks; what its client sees *)
+(* controllers/ready.go:
+
+     func (r *Ready) ServeHTTP(w http.ResponseWriter, _ *http.Request) {
+         if r.startup.IsFinished() {
+             w.WriteHeader(http.StatusOK); w.Write("All pugjs startup tasks are finished"); return
+         }
+         w.WriteHeader(http.StatusTooEarly); w.Write("Still waiting for ...")
+     }
+
+   The handler is mounted on the http.ServeMux of flamingo's systemendpoint
+   under "/pugjs/ready", for every method.  A probe is a [request]; the handler
+   answers with a sequence of ResponseWriter calls; what an orchestrator sees
+   is the status line net/http makes of them.
+
+   ASSUMED (trusted, not verified): net/http's response writer (and
+   httptest.ResponseRecorder alike): the status line is fixed by the FIRST
+   call - WriteHeader(st) gives st, a Write before any WriteHeader gives an
+   implicit 200 and later WriteHeader calls are ignored, no call at all
+   gives 200. *)
+Record request := mkRequest {
+  rq_method  : bytes;                  (* GET, HEAD, POST, ... *)
+  rq_query   : bytes;
+  rq_headers : list (bytes * bytes);   (* Accept, Content-Type, anything *)
+  rq_body    : bytes;
+  rq_http10  : bool;                   (* HTTP/1.0 instead of 1.1 *)
+  rq_reused  : bool                    (* asked on a connection that carried earlier probes *)
+}.
+
+Inductive wop := WriteHeader (st : N) | Write (b : bytes).
+
+Definition client_status (ops : list wop) : N :=
+  match ops with
+  | WriteHeader st :: _ => st
+  | _ => 200%N
+  end.
+
+Definition ready_ops (s : state) (r : request) : list wop :=
+  match waiter s with
+  | Closed => [WriteHeader 200%N; Write (B "All pugjs startup tasks are finished")]
+  | _ => [WriteHeader 425%N; Write (B "Still waiting for pugjs startup tasks to be finished")]
+  end.
+
+(* the status the client of a probe asked as [r] in state [s] reads *)
+Definition serve (s : state) (r : request) : N := client_status (ready_ops s r).
+
+(* counter-model: a handler that answers SOME requests (those [wants] picks,
+   e.g. the ones whose Accept header names a document type) with a document it
+   writes before it sets the status *)
+Definition body_first_ops (wants : request -> bool) (s : state) (r : request) : list wop :=
+  if wants r
+  then [Write (B "{""ready"":..}"); WriteHeader (probe s)]
+  else ready_ops s r.
